@@ -344,9 +344,14 @@ func check(prop, tier string) int {
 	known := loadKnown()
 	os.MkdirAll(filepath.Join(root, "replays", "out"), 0o755)
 	violations, knownSeen := 0, 0
+	raceShrunk := 0
 	var vlist []any
 	for _, key := range sigs {
 		e := bySig[key]
+		if e.u.Race && strings.HasPrefix(e.f.Sig, "no-race/") && matchKnown(known, prop, e.f.Sig) == nil && envInt("VERIF_RACE_SHRINK", 1) == 1 && raceShrunk < 3 {
+			raceShrunk++
+			shrinkRace(&e.f, e.u, prop, tier, scratch)
+		}
 		rf := ReplayFile{Property: prop, Unit: e.u.Name, Sim: e.u.Sim, Race: e.u.Race, Tier: tier, Seed: e.f.Seed, Run: e.f.Run,
 			Signature: e.f.Sig, Violation: e.f.V, Tape: e.f.Tape, OrigLen: e.f.OrigLen, LogFP: e.f.LogFP, Log: e.f.Log}
 		h := sha256.Sum256([]byte(key))
@@ -417,6 +422,38 @@ func check(prop, tier string) int {
 		return 1
 	}
 	return 0
+}
+
+// shrinkRace minimises the tape of a race report. The detector reports a pair
+// of stacks once per process, so every attempt is a fresh child in replay mode.
+func shrinkRace(f *sim.Found, u Unit, prop, tier, scratch string) {
+	bin := filepath.Join(binDir(), u.Name+".test")
+	deadline := time.Now().Add(time.Duration(envInt("VERIF_RACE_SHRINK_S", 40)) * time.Second)
+	n := 0
+	test := func(tape []uint32) bool {
+		if time.Now().After(deadline) {
+			return false
+		}
+		n++
+		sp := sim.Spec{Sim: u.Sim, Prop: prop, Mode: "replay", Tier: tier, Tape: tape, Out: filepath.Join(scratch, fmt.Sprintf("shrink-%s-%d.json", u.Name, n)), Race: true, Procs: u.Procs}
+		sp.RaceLog = sp.Out + ".race"
+		r := runChild(bin, sp, 60*time.Second, "GORACE=halt_on_error=0 log_path="+sp.RaceLog)
+		if r.err != nil || r.out == nil {
+			return false
+		}
+		for _, x := range r.out.Found {
+			if x.Sig == f.Sig {
+				return true
+			}
+		}
+		return false
+	}
+	if !test(f.Tape) {
+		return // does not reproduce in a fresh process: keep the recorded tape
+	}
+	min := sim.Shrink(f.Tape, test, 200)
+	f.Shrinks = n
+	f.Tape = min
 }
 
 func firstLines(s string, n int) string {
